@@ -109,7 +109,7 @@ fn case_json(c: &RhoCase) -> Value {
 
 pub fn run_rho(cx: &mut Ctx, cases: &[RhoCase]) {
     let exe = std::env::current_exe().expect("current_exe");
-    let limit = Duration::from_secs(cx.args.budget(4, 10, 4) as u64);
+    let limit = Duration::from_secs(cx.args.budget(8, 20, 8) as u64);
     // three children per case, all started together
     let mut kids = vec![];
     for c in cases {
